@@ -590,20 +590,28 @@ impl DocumentInline {
                 })
             }
             DocumentInline::Link(link) => {
-                Some(InlineRange {
-                    start: Position {
+                let end = Position {
+                    line: link.inline_range.end.line,
+                    // Exclude title and parentheses from the range
+                    character: link.inline_range.end.character - 1,
+                };
+                let url_length = link.target.url.encode_utf16().count();
+                // without a title the url stands right before the closing parenthesis, whatever
+                // the link text looks like (markup, a line break)
+                let start = if link.target.title.is_empty() && end.character >= url_length {
+                    Position {
+                        line: end.line,
+                        character: end.character - url_length,
+                    }
+                } else {
+                    Position {
                         line: link.inline_range.start.line,
-                        // Exclude title and parentheses from the range
                         character: link.inline_range.start.character
                             + self.to_plain_text().encode_utf16().count()
                             + 3,
-                    },
-                    end: Position {
-                        line: link.inline_range.end.line,
-                        // Exclude title and parentheses from the range
-                        character: link.inline_range.end.character - 1,
-                    },
-                })
+                    }
+                };
+                Some(InlineRange { start, end })
             }
             _ => None,
         }
